@@ -5,7 +5,7 @@ use std::collections::HashMap;
 use serde_json::json;
 use tau_engine::Document;
 
-use crate::ast::*;
+
 use crate::dval::{json_ok, lookup, to_json, to_yaml_map, DVal};
 use crate::eng;
 use crate::gen::{self, GenCfg};
